@@ -156,7 +156,8 @@ class Impl:
         if name == "GetKey":
             return [1, self.enc_item(l[ka(a[0])])]
         if name == "GetSlice":
-            return self.enc_new(l[slice(a[0], a[1], a[2])])
+            r = l[slice(a[0], a[1], a[2])]
+            return [-98] if r is l else self.enc_new(r)
         if name == "SetIdx":
             l[a[0]] = it(a[1]); return [0]
         if name == "SetKey":
@@ -191,10 +192,12 @@ class Impl:
             l.reverse(); return [0]
         if name == "Clear":
             l.clear(); return [0]
-        if name == "Add":
-            return self.enc_new(l + [it(x) for x in a[0]])
+        if name == "Add":       # like list + list: always a NEW container (also for an empty operand)
+            r = l + [it(x) for x in a[0]]
+            return [-98] if r is l else self.enc_new(r)
         if name == "RAdd":
-            return self.enc_new([it(x) for x in a[0]] + l)
+            r = [it(x) for x in a[0]] + l
+            return [-98] if r is l else self.enc_new(r)
         if name == "ContainsItem":
             return [3, int(it(a[0]) in l)]
         if name == "ContainsKey":
@@ -302,6 +305,8 @@ def op_instances(u, n, keys, pays, typed):
         ops += [("Extend", [items[-1]] + bad[:1], kind), ("Extend", [items[0], items[-1]], kind),
                 ("IAdd", bad[:1] + [items[0]], kind), ("IAdd", [items[-1]], kind)]
     ops += [("Add", [items[0]]), ("Add", [items[-1], items[-2]]), ("RAdd", [items[-1]]), ("Add", bad[:1] or [items[1]])]
+    # empty operands: the result is still a new container; in-place forms keep the receiver
+    ops += [("Add", []), ("RAdd", []), ("IAdd", []), ("IAdd", [], "tuple"), ("Extend", [], "kl")]
     ops += [("Reverse",), ("Clear",), ("Iter",), ("Reversed",), ("Len",), ("Keys",), ("Items",),
             ("SetSlice",), ("DelSlice",)]
     ops += [("GetSlice", a, b, s) for a in (None, -1, 1) for b in (None, -1, 2) for s in (1, -1, 2, 0)]
